@@ -44,8 +44,40 @@ def oracle_decode(inp):
     return judge(inp['cls'], bytes.fromhex(inp['data']))
 
 
+def judge_reuse(name, first, second):
+    """decoding is a function of the bytes: decoding [second] into a message object that already
+    decoded [first] gives what a fresh object gives, and it re-encodes to [second]"""
+    from pyipmi.msgs import decode_message, encode_message
+    cls = U.cls_of(name)
+    fresh = U.attempt(lambda: U.decode_bytes(cls, second))
+    obj = cls()
+    try:
+        decode_message(obj, first)
+        decode_message(obj, second)
+        got = U.canon_env(obj)
+    except Exception as e:  # noqa
+        got = e
+    if isinstance(fresh, Exception) or isinstance(got, Exception):
+        if type(fresh) is type(got):
+            return None
+        return 'decoding %s into an object that decoded %s before: %r, a fresh object: %r' % (second.hex(), first.hex(), got, fresh)
+    if got != fresh:
+        return 'decoding %s into an object that decoded %s before gives %r, a fresh object gives %r' % (
+            second.hex(), first.hex(), got, fresh)
+    again = U.attempt(lambda: bytes(encode_message(obj)))
+    if again != bytes(second):
+        return 'object that decoded %s then %s re-encodes to %r' % (first.hex(), second.hex(), again)
+    return None
+
+
+def oracle_reuse(inp):
+    return judge_reuse(inp['cls'], bytes.fromhex(inp['first']), bytes.fromhex(inp['second']))
+
+
 def replay(data):
     r = data['replay']
+    if r['oracle'] == 'decode_reuse':
+        return oracle_reuse(r['input']) is None
     return oracle_decode(r['input']) is None
 
 
@@ -122,6 +154,40 @@ def run(ctx):
                 case(name, bs[:n], 'truncation' if n < len(bs) else 'valid')
             for n in (1, 2, 3):
                 case(name, bs + bytes(rng.randrange(256) for _ in range(n)), 'extension')
+        # a message object that decoded something before: longer form first, then every shorter
+        # presence pattern / shorter variable part (classes with Conditional fields keep the old
+        # attribute when the condition is false in the original code too: not claimed)
+        if not any(type(f) is M.Conditional for f in fs):
+            env_full = U.gen_in_range(cls, rng, 'ones', nopt)
+            first = U.encode_env(cls, env_full)
+            seconds = [U.encode_env(cls, U.gen_in_range(cls, rng, 'random', p)) for p in range(nopt + 1)]
+            if any(type(f) is M.VariableByteArray for f in fs):
+                for ln in (0, 1):
+                    e2 = U.gen_in_range(cls, rng, 'random', nopt)
+                    for i, f in enumerate(fs):
+                        if type(f) is M.VariableByteArray:
+                            e2[i] = ('bytes', bytes(range(ln)))
+                            e2[[U.inner(g).name for g in fs].index('count')] = ('int', ln)
+                    seconds.append(U.encode_env(cls, e2))
+                first = U.encode_env(cls, [('int', 0), ('int', 7), ('bytes', bytes(range(7)))]) if len(fs) == 3 else first
+            for second in seconds:
+                def reuse():
+                    from pyipmi.msgs import decode_message
+                    o = cls()
+                    decode_message(o, first)
+                    decode_message(o, second)
+                    return U.canon_env(o)
+                r = U.attempt(reuse)
+                terms.append('chk_dec L_%s %s %s' % (name, C.c_hex(second), U.xres(r, U.c_env)))
+                meta.append(('decode-into-used-object', name, first.hex(), second.hex()))
+                res.evaluations += 1
+                msg = judge_reuse(name, first, second)
+                key = 'decode-reuse:' + name
+                if msg and key not in fails:
+                    fails[key] = C.Violation(key=key, what='%s: %s' % (name, msg),
+                                             replay={'oracle': 'decode_reuse',
+                                                     'input': {'cls': name, 'first': first.hex(), 'second': second.hex()}})
+                D.add((name, 'reuse', first, second), True, 'decode-into-used-object')
         # random strings up to layout length + 8, 70 % starting with 00
         full = len(U.encode_env(cls, U.gen_in_range(cls, rng, 'ones', nopt)))
         for _ in range(12 if q else 200):
